@@ -802,7 +802,7 @@ fn plan(prop: &str, thorough: bool) -> Vec<(Profile, &'static str, usize, usize,
 }
 
 pub fn gen(a: &Args, prop: &str) {
-    let mut w = CaseWriter::new(&a.out, prop, &format!("Corr.{}", prop), 12);
+    let mut w = CaseWriter::new(&a.out, prop, &format!("Corr.{}", prop), 25);
     let mut sut = Sut::new(prop);
     if let Some(lines) = a.replay_lines() {
         for l in lines {
